@@ -367,6 +367,20 @@ VPull(S, e, S2) ==
         /\ \A d \in Dels(S) \ (R \cup D) : SameDel(S, S2, d)
         /\ RestSame(S, S2, {"topics", "msgs", "snaps"}))
 
+(* A blocking pull that found nothing and was ended by the CLIENT's deadline  *)
+(* (answered DeadlineExceeded / Canceled): it still counts as pull activity   *)
+(* for the expiration TTL (C14: "every pull, even an empty one, restarts the  *)
+(* clock") and changes nothing else.                                          *)
+VPullTimeout(S, e, S2) ==
+  LET X == SubsNamed(S, e.sub) IN
+  IF X = {} THEN Chk("C16:error-changed-state", Core(S2) = Core(S))
+  ELSE LET s == CHOOSE x \in X : TRUE IN
+    Chk("C14:pull-restarts-expiry",
+        /\ SubsSameExcept(S, S2, {s})
+        /\ S2.subs[s] = [S.subs[s] EXCEPT !.exp = S2.subs[s].exp]
+        /\ In(S2.subs[s].exp, e.t0 + S.subs[s].ttl, e.t1 + S.subs[s].ttl))
+    \cup Chk("C02:pull-frame", RestSame(S, S2, {"topics", "msgs", "del", "snaps"}))
+
 \* deliveries named by an Ack / ModAck / Nack request that (still) exist
 Named(S, e) == {e.ids[i] : i \in DOMAIN e.ids} \cap Dels(S)
 
@@ -679,6 +693,7 @@ V(S, e, S2) ==
     [] e.op = "SetDelay" -> VSetDelay(S, e, S2)
     [] e.op = "Publish" -> VPublish(S, e, S2)
     [] e.op = "Pull" -> VPull(S, e, S2)
+    [] e.op = "PullTimeout" -> VPullTimeout(S, e, S2)
     [] e.op = "Ack" -> VAck(S, e, S2)
     [] e.op = "ModAck" -> VModAck(S, e, S2)
     [] e.op = "Nack" -> VNack(S, e, S2)
@@ -711,7 +726,7 @@ Retired(S, e, S2, d) ==
   \/ e.op \in {"SeekTime", "SeekSnap"} /\ d[2] \in SubsNamed(S, e.sub)
 
 Addressed(S, e) ==   \* the subscriptions an operation is allowed to touch deliveries of
-  CASE e.op \in {"Pull", "SeekTime", "SeekSnap"} -> SubsNamed(S, e.sub)
+  CASE e.op \in {"Pull", "PullTimeout", "SeekTime", "SeekSnap"} -> SubsNamed(S, e.sub)
     [] e.op \in {"DeleteSub", "UpdateSub", "SetDelay"} -> SubsNamed(S, e.name)
     [] e.op \in {"Ack", "ModAck", "Nack"} -> {d[2] : d \in Named(S, e)}
     [] e.op \in {"CreateTopic", "DeleteTopic", "CreateSub", "CreateSnap", "DeleteSnap", "Get", "List", "Tick"} -> {}
